@@ -52,7 +52,7 @@ type cachehist struct{}
 func init() { register(cachehist{}) }
 
 func (cachehist) Name() string    { return "cachehist" }
-func (cachehist) Props() []string { return []string{"C01", "C02", "C09", "C14"} }
+func (cachehist) Props() []string { return []string{"C01", "C02", "C09", "C14", "C18"} }
 
 func (cachehist) Decode(raw json.RawMessage) (any, error) {
 	var c CHCase
@@ -69,7 +69,7 @@ func (cachehist) Rule(prop string) string {
 var chTaskNames = []string{"AAAAAA", "BBBBBB", "CCCCCC", "DDDDDD"}
 var chFiles = []string{"a.txt", "b.txt", "src/x.c", "src/y.c", "src/sub/z.c", ".h.txt", "src/.hid.c", "src/n.h", "-d.txt"}
 var chLiteral = []string{"a.txt", "b.txt", "src/x.c", "src/n.h"}
-var chGlobs = []string{"*.txt", "src/*.c", "**/*.c", "src/**", "src/**/*.c", "{a,b}*.txt", "./*.txt", "./src/*.c"}
+var chGlobs = []string{"*.txt", "src/*.c", "**/*.c", "src/**", "src/**/*.c", "{a,b}*.txt", "./*.txt", "./src/*.c", ".*", ".*.txt"}
 var chContents = []string{"1", "2", "3"}
 var chCwds = []string{"", "", "", "src", "src/sub"}
 var chExits = []int{1, 2, 127, 128, 255}
@@ -192,7 +192,11 @@ func (cachehist) Gen(r *Rng, cfg GenConfig) any {
 	if cfg.Prop != "nowriters" && r.Chance(1, 5) {
 		addWriter(r, &c.Prog)
 	}
-	if cfg.Prop != "nowriters" && r.Chance(1, 8) {
+	linkOdds := 8
+	if cfg.Prop == "C18" {
+		linkOdds = 2
+	}
+	if cfg.Prop != "nowriters" && r.Chance(1, linkOdds) {
 		// a dependency that is a symbolic link to another file of the project: editing the TARGET changes
 		// the task's inputs. Link names are never edited or deleted by operations.
 		ln := Pick(r, [][2]string{{"ln.txt", "a.txt"}, {"src/ln.c", "src/x.c"}, {"ln.txt", "src/n.h"}})
@@ -362,6 +366,25 @@ func (cachehist) Gen(r *Rng, cfg GenConfig) any {
 		if len(c.Ops) >= macroAt && macroAt >= 0 {
 			macroAt = -1
 			macro()
+			continue
+		}
+		if len(c.Links) > 0 && r.Chance(1, 12) {
+			l := firstKey(c.Links)
+			var targets []string
+			for _, t := range []string{"a.txt", "b.txt", "src/x.c", "src/n.h"} {
+				rewritten := false
+				for _, task := range c.Prog.Tasks {
+					for _, fw := range task.Writes {
+						if fw.Path == t {
+							rewritten = true
+						}
+					}
+				}
+				if !rewritten {
+					targets = append(targets, t)
+				}
+			}
+			emit(CHOp{Op: "relink", Path: l, Content: Pick(r, targets)})
 			continue
 		}
 		k := r.Intn(20)
@@ -671,7 +694,23 @@ func (cachehist) Exec(w *World, cc any, prop string) *Result {
 		res.count("skipped_ill_formed_case")
 		return res
 	}
+	written := map[string]bool{}
+	for _, t := range c.Prog.Tasks {
+		for _, fw := range t.Writes {
+			written[fw.Path] = true
+		}
+	}
+	for _, target := range c.Links {
+		if written[target] {
+			res.count("skipped_ill_formed_case") // a link onto a file some task rewrites: the reader's order relative to the writer is undetermined
+			return res
+		}
+	}
 	for _, op := range c.Ops {
+		if op.Op == "relink" && written[op.Content] {
+			res.count("skipped_ill_formed_case")
+			return res
+		}
 		if _, isLink := c.Links[op.Path]; isLink && (op.Op == "write" || op.Op == "delete") {
 			res.count("skipped_ill_formed_case") // operations address the target of a link, never the link itself
 			return res
@@ -736,6 +775,18 @@ func (s *projState) applyOp(res *Result, oi string, op CHOp) {
 			}
 		}
 		res.event("%s ctl %s_%d=%d", oi, op.Task, op.Cmd, op.Exit)
+	case "relink":
+		// re-point a dependency link at another file (op.Path -> op.Content, both project relative)
+		if _, ok := s.links[op.Path]; ok {
+			full := filepath.Join(s.w.Proj, filepath.FromSlash(op.Path))
+			target, err := filepath.Rel(filepath.Dir(full), filepath.Join(s.w.Proj, filepath.FromSlash(op.Content)))
+			must(err)
+			os.Remove(full)
+			must(os.Symlink(target, full))
+			s.links[op.Path] = op.Content
+			res.count("fault_fired:dependency_link_repointed")
+		}
+		res.event("%s relink %s -> %s", oi, op.Path, op.Content)
 	case "rmcache":
 		s.rmCache(op.What)
 		res.count("fault_fired:cache_removed_" + op.What)
@@ -954,6 +1005,16 @@ func (s *projState) judgeRun(res *Result, sched Sched, forceBefore bool, oi stri
 	}
 	if anyMissing {
 		res.count("fault_present:missing_literal_dependency")
+		// C18 at system level: a dependency that cannot be opened (missing literal file, dangling link listed by a
+		// glob) makes spok stop with an error; it never computes a digest without it and carries on
+		if prop == "C18" {
+			res.count("probe:unreadable_dependency_in_closure")
+			if !obs.Failed {
+				res.violate("C18", "unreadable-dependency-stops-spok", sig, "%s: a dependency of a task in the closure cannot be opened (missing file or dangling link), yet the invocation succeeded (ran %v)", oi, delta)
+			} else if strings.TrimSpace(obs.ErrText) == "" {
+				res.violate("C18", "unreadable-dependency-stops-spok", sig, "%s: the invocation failed without a message", oi)
+			}
+		}
 	}
 
 	// ---- coverage and probes
